@@ -12,6 +12,7 @@ import Sgz.Model.Crop
 import Sgz.Model.Reblock
 import Sgz.Model.Irregular
 import Sgz.Model.Export
+import Sgz.Model.Window
 /-!
 Line-protocol driver over the executable model (`Sgz/Model`, Mathlib-free).  One request per line, one answer per
 line.  The Python harness sends the same request to the real implementation and diffs canonical answers.
@@ -373,6 +374,22 @@ def handleExport (ws : List String) : String :=
     s!"{Export.exportFormat fh} {Export.exportFileHeader fh 3224} {Export.exportFileHeader fh 3225}"
   | _ => "bad-op"
 
+/-- `window N1 A0 A1 B0 B1`: for every header slot `0 … |w|−1` the source trace ordinal stored there (−1 = never written),
+then the first and last trace used by detection -/
+def handleWindow (ws : List String) : String :=
+  match ws.mapM String.toNat? with
+  | some [n1, a0, a1, b0, b1] =>
+    let w : Window.Win := ⟨a0, a1, b0, b1⟩
+    let size := (a1 - a0) * (b1 - b0)
+    let pairs := (List.range (a1 - a0)).flatMap fun il => (List.range (b1 - b0)).map fun j =>
+      (Window.tStore n1 w (Window.startTrace n1 w il + j), Window.startTrace n1 w il + j)
+    let slots := (List.range size).map fun sl =>
+      match pairs.reverse.find? (fun p => p.1 == sl) with
+      | some p => toString p.2
+      | none => "-1"
+    s!"{" ".intercalate slots} | {Window.firstTrace n1 w} {Window.lastTrace n1 w}"
+  | _ => "bad-op"
+
 def handle (line : String) : String :=
   if line.startsWith "hist " then handleHist (line.drop 5).toString else
   if line.startsWith "hwtable " then handleHwTable (line.drop 8).toString else
@@ -389,6 +406,7 @@ def handle (line : String) : String :=
   | "reblock" :: rest => handleReblock rest
   | "irr" :: rest => handleIrr rest
   | "export" :: rest => handleExport rest
+  | "window" :: rest => handleWindow rest
   | "hashfeed" :: rest => handleHashFeed rest
   | ["ping"] => "pong"
   | _ => "bad-op"
